@@ -9,6 +9,7 @@
 import OidcModel.Proofs.C05
 import OidcModel.Model.EndpointFlow
 import OidcModel.GoTac
+import OidcModel.Proofs.C05Shape
 namespace C05
 open Go Gen Hand Flow
 
@@ -314,7 +315,7 @@ theorem judge_device {c : Cfg} {resp : EPResp} {now : Int} {k : Creds} (h : Good
 
 theorem requestError_shape (now : Int) (r : EPRequest) (err : String) :
     ∃ e s, GenEP.RequestError now r err = .json e s ∧ s ≥ 400 := by
-  unfold GenEP.RequestError
+  rw [SpecEP.RequestError_eq]; unfold SpecEP.RequestError
   simp only []
   split
   · exact ⟨_, _, rfl, by decide⟩
@@ -327,8 +328,8 @@ theorem decodeStatus_ge {e : String} {se : EPStatusError} (h : Hand.epDecodeStat
 
 theorem writeError_shape (now : Int) (r : EPRequest) (err : String) :
     ∃ e s, GenEP.WriteError now r err = .json e s ∧ s ≥ 400 := by
-  unfold GenEP.WriteError GenEP.writeError
-  simp only []
+  rw [SpecEP.WriteError_eq]; unfold SpecEP.WriteError; simp only [SpecEP.writeError_eq]; unfold SpecEP.writeError
+  try simp only []
   split
   · rename_i hs
     refine ⟨_, _, rfl, ?_⟩
@@ -369,7 +370,7 @@ theorem goodRevoke_writeError (c : Cfg) (now : Int) (k : Creds) (r : EPRequest) 
 
 theorem goodRevoke_revocationRequestError (c : Cfg) (now : Int) (k : Creds) (r : EPRequest) (err : String) :
     GoodRevoke c now k (GenEP.RevocationRequestError now r err) := by
-  unfold GenEP.RevocationRequestError; trivial
+  rw [SpecEP.RevocationRequestError_eq]; unfold SpecEP.RevocationRequestError; trivial
 
 /-! ## request parsing: what the regenerated parsers extract is what the request presents (`credsOf`) -/
 
@@ -386,7 +387,7 @@ theorem parseAuthenticated_ok {now : Int} {o : EPOracles} {r : EPRequest} {d : E
     (h : GenEP.ParseAuthenticatedTokenRequest now o r d f0 = .ok f) :
     (credsOf o r).primary = some { clientID := f.ClientID, secret := f.ClientSecret } ∧
     f.ClientAssertion = r.Form.last "client_assertion" := by
-  unfold GenEP.ParseAuthenticatedTokenRequest at h
+  rw [SpecEP.ParseAuthenticatedTokenRequest_eq] at h; unfold SpecEP.ParseAuthenticatedTokenRequest at h
   split at h; · simp at h
   split at h; · simp at h
   rename_i f1 hdec
@@ -434,7 +435,7 @@ theorem fits_of_authenticated {x : EPProvider} {now : Int} {o : EPOracles} {k : 
 
 theorem goodToken_codeExchange {x : EPProvider} {now : Int} {o : EPOracles} {r : EPRequest} :
     GoodToken (cfgOf x) now (credsOf o r) Const.GrantTypeCode (GenEP.CodeExchange now o r x) := by
-  unfold GenEP.CodeExchange
+  rw [SpecEP.CodeExchange_eq]; unfold SpecEP.CodeExchange
   split; · exact goodToken_requestError ..
   rename_i f hparse
   split; · exact goodToken_requestError ..
@@ -445,7 +446,7 @@ theorem goodToken_codeExchange {x : EPProvider} {now : Int} {o : EPOracles} {r :
   | error e => simp only []; exact goodToken_requestError ..
   | ok u =>
     simp only []
-    unfold GenEP.ParseAccessTokenRequest at hparse
+    rw [SpecEP.ParseAccessTokenRequest_eq] at hparse; unfold SpecEP.ParseAccessTokenRequest at hparse
     simp only [] at hparse
     split at hparse; · simp at hparse
     rename_i f' hpa
@@ -470,7 +471,7 @@ def RefreshAuthenticated (now : Int) (p : Provider) (req : RefreshTokenRequest) 
 
 theorem authorizeRefreshClient_auth {now req p r c} (h : AuthorizeRefreshClient now req p = .ok (r, c)) :
     RefreshAuthenticated now p req c := by
-  unfold AuthorizeRefreshClient AuthorizePrivateJWTKey AuthorizeClientIDSecret at h
+  rw [SpecTok.AuthorizeRefreshClient_eq] at h; unfold SpecTok.AuthorizeRefreshClient at h; simp only [SpecTok.AuthorizePrivateJWTKey_eq] at h; unfold SpecTok.AuthorizePrivateJWTKey at h; simp only [SpecTok.AuthorizeClientIDSecret_eq] at h; unfold SpecTok.AuthorizeClientIDSecret at h
   simp only [Provider.Storage, Provider.AuthMethodPrivateKeyJWTSupported, Provider.AuthMethodPostSupported, OPClient.AuthMethod,
     Claims.Issuer] at h
   repeat' (split at h <;> try (simp at h))
@@ -501,7 +502,7 @@ theorem fits_of_refreshAuthenticated {x : EPProvider} {now : Int} {o : EPOracles
 
 theorem validateRefresh_auth {now req p r c} (h : ValidateRefreshTokenRequest now req p = .ok (r, c)) :
     RefreshAuthenticated now p req c ∧ Const.GrantTypeRefreshToken ∈ c.grants := by
-  unfold ValidateRefreshTokenRequest at h
+  rw [SpecTok.ValidateRefreshTokenRequest_eq] at h; unfold SpecTok.ValidateRefreshTokenRequest at h
   split at h; · simp at h
   cases hac : AuthorizeRefreshClient now req p with
   | error e => simp [hac] at h
@@ -517,7 +518,7 @@ theorem validateRefresh_auth {now req p r c} (h : ValidateRefreshTokenRequest no
 theorem goodToken_refreshTokenExchange {x : EPProvider} {now : Int} {o : EPOracles} {r : EPRequest}
     (hen : x.config.GrantTypeRefreshToken = true) :
     GoodToken (cfgOf x) now (credsOf o r) Const.GrantTypeRefreshToken (GenEP.RefreshTokenExchange now o r x) := by
-  unfold GenEP.RefreshTokenExchange
+  rw [SpecEP.RefreshTokenExchange_eq]; unfold SpecEP.RefreshTokenExchange
   split; · exact goodToken_requestError ..
   rename_i f hparse
   split; · exact goodToken_requestError ..
@@ -527,7 +528,7 @@ theorem goodToken_refreshTokenExchange {x : EPProvider} {now : Int} {o : EPOracl
   | error e => simp only []; exact goodToken_requestError ..
   | ok u =>
     simp only []
-    unfold GenEP.ParseRefreshTokenRequest at hparse
+    rw [SpecEP.ParseRefreshTokenRequest_eq] at hparse; unfold SpecEP.ParseRefreshTokenRequest at hparse
     simp only [] at hparse
     split at hparse; · simp at hparse
     rename_i f' hpa
@@ -566,7 +567,7 @@ theorem primary_of_basic_override {o : EPOracles} {r : EPRequest} {f1 : EPForm}
 theorem parseClientCredentialsRequest_ok {now : Int} {o : EPOracles} {r : EPRequest} {d : EPDecoder} {f : EPForm}
     (h : GenEP.ParseClientCredentialsRequest now o r d = .ok f) :
     (credsOf o r).primary = some { clientID := f.ClientID, secret := f.ClientSecret } := by
-  unfold GenEP.ParseClientCredentialsRequest at h
+  rw [SpecEP.ParseClientCredentialsRequest_eq] at h; unfold SpecEP.ParseClientCredentialsRequest at h
   split at h; · simp at h
   split at h; · simp at h
   rename_i f1 hdec
@@ -589,7 +590,7 @@ theorem parseClientCredentialsRequest_ok {now : Int} {o : EPOracles} {r : EPRequ
 
 theorem goodToken_clientCredentialsExchange {x : EPProvider} {now : Int} {o : EPOracles} {r : EPRequest} :
     GoodToken (cfgOf x) now (credsOf o r) Const.GrantTypeClientCredentials (GenEP.ClientCredentialsExchange now o r x) := by
-  unfold GenEP.ClientCredentialsExchange
+  rw [SpecEP.ClientCredentialsExchange_eq]; unfold SpecEP.ClientCredentialsExchange
   split; · exact goodToken_requestError ..
   rename_i f hparse
   split; · exact goodToken_requestError ..
@@ -600,7 +601,7 @@ theorem goodToken_clientCredentialsExchange {x : EPProvider} {now : Int} {o : EP
   | ok u =>
     simp only []
     have hprim := parseClientCredentialsRequest_ok hparse
-    unfold GenEP.ValidateClientCredentialsRequest at hval
+    rw [SpecEP.ValidateClientCredentialsRequest_eq] at hval; unfold SpecEP.ValidateClientCredentialsRequest at hval
     simp only [EPProvider.Storage] at hval
     have hcap : x.storage.is_ClientCredentialsStorage = true := by
       cases hc : x.storage.is_ClientCredentialsStorage with
@@ -632,13 +633,13 @@ def NoEmptyID (x : EPProvider) : Prop := ∀ c ∈ x.storage.base.clients, c.id 
 
 theorem genAuthorizeSecret_ok {now : Int} {id sec : String} {s : EPStorage} (h : GenEP.AuthorizeClientIDSecret now id sec s = .ok ()) :
     s.AuthorizeClientIDSecret id sec = .ok () := by
-  unfold GenEP.AuthorizeClientIDSecret at h
+  rw [SpecEP.AuthorizeClientIDSecret_eq] at h; unfold SpecEP.AuthorizeClientIDSecret at h
   split at h <;> simp_all
 
 theorem parseTokenExchangeRequest_ok {now : Int} {o : EPOracles} {r : EPRequest} {d : EPDecoder} {f : EPForm} {id sec : String}
     (h : GenEP.ParseTokenExchangeRequest now o r d = .ok (f, id, sec)) :
     (r.basic = none ∧ id = "") ∨ (credsOf o r).primary = some { clientID := id, secret := sec } := by
-  unfold GenEP.ParseTokenExchangeRequest at h
+  rw [SpecEP.ParseTokenExchangeRequest_eq] at h; unfold SpecEP.ParseTokenExchangeRequest at h
   split at h; · simp at h
   split at h; · simp at h
   unfold EPRequest.BasicAuth at h
@@ -659,7 +660,7 @@ theorem parseTokenExchangeRequest_ok {now : Int} {o : EPOracles} {r : EPRequest}
 theorem goodToken_tokenExchange {x : EPProvider} {now : Int} {o : EPOracles} {r : EPRequest}
     (hW : NoEmptyID x) (hS : x.storage.secretCompareOnly = false) :
     GoodToken (cfgOf x) now (credsOf o r) Const.GrantTypeTokenExchange (GenEP.TokenExchange now o r x) := by
-  unfold GenEP.TokenExchange
+  rw [SpecEP.TokenExchange_eq]; unfold SpecEP.TokenExchange
   split; · exact goodToken_requestError ..
   rename_i f id sec hparse
   split; · exact goodToken_requestError ..
@@ -669,7 +670,7 @@ theorem goodToken_tokenExchange {x : EPProvider} {now : Int} {o : EPOracles} {r 
   | error e => simp only []; exact goodToken_requestError ..
   | ok u =>
     simp only []
-    unfold GenEP.ValidateTokenExchangeRequest at hval
+    rw [SpecEP.ValidateTokenExchangeRequest_eq] at hval; unfold SpecEP.ValidateTokenExchangeRequest at hval
     split at hval; · simp at hval
     split at hval; · simp at hval
     split at hval; · simp at hval
@@ -684,7 +685,7 @@ theorem goodToken_tokenExchange {x : EPProvider} {now : Int} {o : EPOracles} {r 
     simp at hval
     obtain ⟨_, rfl⟩ := hval
     -- client authentication
-    unfold GenEP.AuthorizeTokenExchangeClient at hauth
+    rw [SpecEP.AuthorizeTokenExchangeClient_eq] at hauth; unfold SpecEP.AuthorizeTokenExchangeClient at hauth
     simp only [EPProvider.Storage] at hauth
     split at hauth; · simp at hauth
     rename_i hsec0
@@ -697,7 +698,7 @@ theorem goodToken_tokenExchange {x : EPProvider} {now : Int} {o : EPOracles} {r 
       intro ha
       cases hflag : x.config.AuthMethodPost with
       | true => rfl
-      | false => simp [OPClient.AuthMethod, ha, GenEP.AuthMethodPostSupported, hflag] at hauth
+      | false => simp [OPClient.AuthMethod, ha, SpecEP.AuthMethodPostSupported_eq, SpecEP.AuthMethodPostSupported, hflag] at hauth
     split at hauth; · simp at hauth
     simp at hauth; subst hauth
     -- the token-exchange storage capability
@@ -724,7 +725,7 @@ theorem jwtProfileVerifier_eq (now : Int) (x : EPProvider) : x.JWTProfileVerifie
 
 theorem goodToken_jwtProfile {x : EPProvider} {now : Int} {o : EPOracles} {r : EPRequest} :
     GoodToken (cfgOf x) now (credsOf o r) Const.GrantTypeBearer (GenEP.JWTProfile now o r x) := by
-  unfold GenEP.JWTProfile
+  rw [SpecEP.JWTProfile_eq]; unfold SpecEP.JWTProfile
   split; · exact goodToken_requestError ..
   rename_i f hparse
   split; · exact goodToken_requestError ..
@@ -736,7 +737,7 @@ theorem goodToken_jwtProfile {x : EPProvider} {now : Int} {o : EPOracles} {r : E
   | error e => simp only []; exact goodToken_requestError ..
   | ok u =>
     simp only []
-    unfold GenEP.ParseJWTProfileGrantRequest at hparse
+    rw [SpecEP.ParseJWTProfileGrantRequest_eq] at hparse; unfold SpecEP.ParseJWTProfileGrantRequest at hparse
     split at hparse; · simp at hparse
     split at hparse; · simp at hparse
     rename_i f1 hdec
@@ -756,7 +757,7 @@ theorem goodToken_jwtProfile {x : EPProvider} {now : Int} {o : EPOracles} {r : E
 theorem clientJWTAuth_ok {now : Int} {o : EPOracles} {ca : EPForm} {p : EPProvider} {id : String}
     (h : GenEP.ClientJWTAuth now o ca p = .ok id) :
     ∃ j, VerifyJWTAssertion now (o.tokenOf ca.ClientAssertion) (p.asProvider now).JWTProfileVerifier = .ok j ∧ id = j.iss := by
-  unfold GenEP.ClientJWTAuth at h
+  rw [SpecEP.ClientJWTAuth_eq] at h; unfold SpecEP.ClientJWTAuth at h
   split at h; · simp at h
   split at h; · simp at h
   rename_i tr hver
@@ -768,7 +769,7 @@ theorem clientJWTAuth_ok {now : Int} {o : EPOracles} {ca : EPForm} {p : EPProvid
 theorem clientBasicAuth_ok {now : Int} {o : EPOracles} {r : EPRequest} {s : EPStorage} {id : String}
     (h : GenEP.ClientBasicAuth now o r s = .ok id) :
     ∃ sec, (credsOf o r).primary = some { clientID := id, secret := sec } ∧ s.AuthorizeClientIDSecret id sec = .ok () := by
-  unfold GenEP.ClientBasicAuth EPRequest.BasicAuth at h
+  rw [SpecEP.ClientBasicAuth_eq] at h; unfold SpecEP.ClientBasicAuth at h; unfold EPRequest.BasicAuth at h
   cases hb : r.basic with
   | none => simp [hb] at h
   | some up =>
@@ -787,7 +788,7 @@ theorem clientBasicAuth_ok {now : Int} {o : EPOracles} {r : EPRequest} {s : EPSt
 
 theorem clientBasicAuth_noCredentials {now : Int} {o : EPOracles} {r : EPRequest} {s : EPStorage} {err : String}
     (h : GenEP.ClientBasicAuth now o r s = .error err) (hn : Hand.epErrorsIs err "ErrNoClientCredentials" = true) : r.basic = none := by
-  unfold GenEP.ClientBasicAuth EPRequest.BasicAuth at h
+  rw [SpecEP.ClientBasicAuth_eq] at h; unfold SpecEP.ClientBasicAuth at h; unfold EPRequest.BasicAuth at h
   cases hb : r.basic with
   | none => rfl
   | some up =>
@@ -801,7 +802,7 @@ theorem clientBasicAuth_noCredentials {now : Int} {o : EPOracles} {r : EPRequest
 /-- `checkPrivateKeyJWTClient`: the client exists and is registered for private_key_jwt -/
 theorem checkPrivateKeyJWTClient_ok {now : Int} {id : String} {s : EPStorage} (h : GenEP.checkPrivateKeyJWTClient now id s = .ok ()) :
     ∃ cl, s.base.GetClientByClientID id = .ok cl ∧ cl.auth = Const.AuthMethodPrivateKeyJWT := by
-  unfold GenEP.checkPrivateKeyJWTClient at h
+  rw [SpecEP.checkPrivateKeyJWTClient_eq] at h; unfold SpecEP.checkPrivateKeyJWTClient at h
   simp only [EPStorage.GetClientByClientID] at h
   split at h; · simp at h
   rename_i cl hget
@@ -813,8 +814,8 @@ theorem checkPrivateKeyJWTClient_ok {now : Int} {id : String} {s : EPStorage} (h
 theorem checkAuthMethodPost_ok {now : Int} {id : String} {p : EPProvider} (h : GenEP.checkAuthMethodPost now id p = .ok ()) :
     ∀ cl, p.storage.base.GetClientByClientID id = .ok cl → cl.auth = Const.AuthMethodPost → p.config.AuthMethodPost = true := by
   intro cl hget hpost
-  unfold GenEP.checkAuthMethodPost at h
-  simp only [EPProvider.is_has_AuthMethodPostSupported, GenEP.AuthMethodPostSupported, EPProvider.Storage, EPStorage.GetClientByClientID,
+  rw [SpecEP.checkAuthMethodPost_eq] at h; unfold SpecEP.checkAuthMethodPost at h
+  simp only [EPProvider.is_has_AuthMethodPostSupported, SpecEP.AuthMethodPostSupported_eq, SpecEP.AuthMethodPostSupported, EPProvider.Storage, EPStorage.GetClientByClientID,
     Bool.not_true, Bool.false_or] at h
   cases hflag : p.config.AuthMethodPost with
   | true => rfl
@@ -829,7 +830,7 @@ theorem clientIDFromRequest_ok {now : Int} {o : EPOracles} {r : EPRequest} {p : 
     ∨ (auth = true ∧ (∃ sec, (credsOf o r).primary = some { clientID := id, secret := sec } ∧ p.storage.AuthorizeClientIDSecret id sec = .ok ()) ∧
         ∀ cl, p.storage.base.GetClientByClientID id = .ok cl → cl.auth = Const.AuthMethodPost → p.config.AuthMethodPost = true)
     ∨ (auth = false ∧ (credsOf o r).primary = some { clientID := id, secret := r.Form.last "client_secret" }) := by
-  unfold GenEP.ClientIDFromRequest at h
+  rw [SpecEP.ClientIDFromRequest_eq] at h; unfold SpecEP.ClientIDFromRequest at h
   split at h; · simp at h
   split at h; · simp at h
   rename_i data hdec
@@ -888,7 +889,7 @@ def DeviceGrantsRegistered (x : EPProvider) : Prop :=
 theorem checkDeviceState_ok {now : Int} {clientID code : String} {x : EPProvider} {st : DeviceAuthorizationState}
     (h : Hand.epCheckDeviceState now clientID code x = .ok st) :
     x.storage.is_DeviceAuthorizationStorage = true ∧ ∃ d ∈ x.storage.devices, d.state.ClientID = clientID := by
-  unfold Hand.epCheckDeviceState CheckDeviceAuthorizationState assertDeviceStorage at h
+  unfold Hand.epCheckDeviceState at h; rw [SpecDev.CheckDeviceAuthorizationState_eq] at h; unfold SpecDev.CheckDeviceAuthorizationState at h; simp only [SpecDev.assertDeviceStorage_eq] at h; unfold SpecDev.assertDeviceStorage at h
   simp only [DevProvider.Storage, EPProvider.dev] at h
   split at h; · simp at h
   rename_i st0 hassert
@@ -914,10 +915,10 @@ theorem checkDeviceState_ok {now : Int} {clientID code : String} {x : EPProvider
 theorem goodToken_deviceAccessToken {x : EPProvider} {now : Int} {o : EPOracles} {r : EPRequest}
     (hD : DeviceGrantsRegistered x) (hS : x.storage.secretCompareOnly = false) :
     GoodToken (cfgOf x) now (credsOf o r) Const.GrantTypeDeviceCode (GenEP.DeviceAccessToken now o r x) := by
-  unfold GenEP.DeviceAccessToken
+  rw [SpecEP.DeviceAccessToken_eq]; unfold SpecEP.DeviceAccessToken
   split; · exact goodToken_requestError ..
   rename_i d hd
-  unfold GenEP.deviceAccessToken at hd
+  rw [SpecEP.deviceAccessToken_eq] at hd; unfold SpecEP.deviceAccessToken at hd
   split at hd; · simp at hd
   rename_i id auth hcid
   split at hd; · simp at hd
@@ -965,7 +966,7 @@ theorem goodToken_exchange {x : EPProvider} {now : Int} {o : EPOracles} {r : EPR
     (hDev : grantOf r = Const.GrantTypeDeviceCode → DeviceGrantsRegistered x)
     (hS : grantOf r = Const.GrantTypeTokenExchange ∨ grantOf r = Const.GrantTypeDeviceCode → x.storage.secretCompareOnly = false) :
     GoodToken (cfgOf x) now (credsOf o r) (grantOf r) (GenEP.Exchange now o r x) := by
-  unfold GenEP.Exchange
+  rw [SpecEP.Exchange_eq]; unfold SpecEP.Exchange
   simp only []
   split
   · rename_i h; have h' : grantOf r = Const.GrantTypeCode := by simpa [grantOf, EPRequest.FormValue] using h
@@ -974,7 +975,7 @@ theorem goodToken_exchange {x : EPProvider} {now : Int} {o : EPOracles} {r : EPR
   · rename_i _ h; have h' : grantOf r = Const.GrantTypeRefreshToken := by simpa [grantOf, EPRequest.FormValue] using h
     split
     · rename_i hen
-      rw [h']; exact goodToken_refreshTokenExchange (by simpa [GenEP.GrantTypeRefreshTokenSupported] using hen)
+      rw [h']; exact goodToken_refreshTokenExchange (by simpa [SpecEP.GrantTypeRefreshTokenSupported_eq, SpecEP.GrantTypeRefreshTokenSupported] using hen)
     · exact goodToken_requestError ..
   split
   · rename_i _ _ h; have h' : grantOf r = Const.GrantTypeBearer := by simpa [grantOf, EPRequest.FormValue] using h
@@ -1025,7 +1026,7 @@ theorem secret_client {x : EPProvider} {now : Int} {k : Creds} {id sec : String}
 theorem goodIntrospect_introspect {x : EPProvider} {now : Int} {o : EPOracles} {r : EPRequest}
     (hS : x.storage.secretCompareOnly = false) :
     GoodIntrospect (cfgOf x) now (credsOf o r) (GenEP.Introspect now o r x) := by
-  unfold GenEP.Introspect
+  rw [SpecEP.Introspect_eq]; unfold SpecEP.Introspect
   simp only []
   split; · trivial
   rename_i token clientID hparse
@@ -1038,7 +1039,7 @@ theorem goodIntrospect_introspect {x : EPProvider} {now : Int} {o : EPOracles} {
     · simp at hset; subst hset
       simp only [Hand.epIntrospected]
       show ∃ cl, _
-      unfold GenEP.ParseTokenIntrospectionRequest at hparse
+      rw [SpecEP.ParseTokenIntrospectionRequest_eq] at hparse; unfold SpecEP.ParseTokenIntrospectionRequest at hparse
       split at hparse; · simp at hparse
       rename_i id auth hcid
       split at hparse; · simp at hparse
@@ -1057,7 +1058,7 @@ theorem goodIntrospect_introspect {x : EPProvider} {now : Int} {o : EPOracles} {
 theorem parseTokenRevocationRequest_ok {x : EPProvider} {now : Int} {o : EPOracles} {r : EPRequest} {tok hint id : String}
     (h : GenEP.ParseTokenRevocationRequest now o r x = .ok (tok, hint, id)) (hS : x.storage.secretCompareOnly = false) :
     ∃ cl, (cfgOf x).base.clients.find? (·.id == id) = some cl ∧ credsFit (cfgOf x) now cl (credsOf o r) = true := by
-  unfold GenEP.ParseTokenRevocationRequest at h
+  rw [SpecEP.ParseTokenRevocationRequest_eq] at h; unfold SpecEP.ParseTokenRevocationRequest at h
   split at h; · simp at h
   split at h; · simp at h
   rename_i req hdec
@@ -1124,13 +1125,13 @@ theorem parseTokenRevocationRequest_ok {x : EPProvider} {now : Int} {o : EPOracl
         obtain ⟨_, hid⟩ := getClient_ok hget
         refine ⟨client, by simpa [hid] using getClient_find hget, fits_of_secret hprim hget (epSecret_strict hS _ _ ▸ genAuthorizeSecret_ok hsec) ?_⟩
         intro ha
-        simp only [OPClient.AuthMethod, GenEP.AuthMethodPostSupported] at hpost
+        simp only [OPClient.AuthMethod, SpecEP.AuthMethodPostSupported_eq, SpecEP.AuthMethodPostSupported] at hpost
         simpa [ha] using hpost
 
 theorem goodRevoke_revoke {x : EPProvider} {now : Int} {o : EPOracles} {r : EPRequest}
     (hS : x.storage.secretCompareOnly = false) :
     GoodRevoke (cfgOf x) now (credsOf o r) (GenEP.Revoke now o r x) := by
-  unfold GenEP.Revoke
+  rw [SpecEP.Revoke_eq]; unfold SpecEP.Revoke
   split; · exact goodRevoke_revocationRequestError ..
   rename_i tok hint id hparse
   have hok := parseTokenRevocationRequest_ok hparse hS
@@ -1143,10 +1144,10 @@ theorem goodRevoke_revoke {x : EPProvider} {now : Int} {o : EPOracles} {r : EPRe
 
 theorem goodDevice_deviceAuthorizationHandler {x : EPProvider} {now : Int} {o : EPOracles} {r : EPRequest} :
     GoodDevice (cfgOf x) (GenEP.DeviceAuthorizationHandler now o x r) := by
-  unfold GenEP.DeviceAuthorizationHandler
+  rw [SpecEP.DeviceAuthorizationHandler_eq]; unfold SpecEP.DeviceAuthorizationHandler
   split; · exact goodDevice_requestError ..
   rename_i d hd
-  unfold GenEP.DeviceAuthorization at hd
+  rw [SpecEP.DeviceAuthorization_eq] at hd; unfold SpecEP.DeviceAuthorization at hd
   split at hd; · simp at hd
   rename_i req hparse
   split at hd; · simp at hd
@@ -1160,7 +1161,7 @@ theorem goodDevice_deviceAuthorizationHandler {x : EPProvider} {now : Int} {o : 
   simp [hcap] at hcreate
   split at hcreate
   · simp at hcreate; subst hcreate
-    unfold GenEP.ParseDeviceCodeRequest at hparse
+    rw [SpecEP.ParseDeviceCodeRequest_eq] at hparse; unfold SpecEP.ParseDeviceCodeRequest at hparse
     split at hparse; · simp at hparse
     rename_i id _ hcid
     split at hparse; · simp at hparse
@@ -1181,7 +1182,7 @@ theorem parseClientCredentials_ok {now : Int} {o : EPOracles} {s : EPWebServer} 
     (h : GenEP.parseClientCredentials now o s r = .ok cc) :
     (credsOf o r).primary = some { clientID := cc.ClientID, secret := cc.ClientSecret } ∧
     cc.ClientAssertion = r.Form.last "client_assertion" := by
-  unfold GenEP.parseClientCredentials at h
+  rw [SpecEP.parseClientCredentials_eq] at h; unfold SpecEP.parseClientCredentials at h
   split at h; · simp at h
   split at h; · simp at h
   rename_i f1 hdec
@@ -1216,7 +1217,7 @@ theorem authenticateResourceClient_ok {now : Int} {o : EPOracles} {s : EPLegacyS
         GenEP.checkPrivateKeyJWTClient now id s.provider.Storage = .ok ())
     ∨ (cc.ClientAssertion = "" ∧ id = cc.ClientID ∧ s.provider.Storage.AuthorizeClientIDSecret cc.ClientID cc.ClientSecret = .ok () ∧
         GenEP.checkAuthMethodPost now cc.ClientID s.provider = .ok ()) := by
-  unfold GenEP.authenticateResourceClient
+  rw [SpecEP.authenticateResourceClient_eq]; unfold SpecEP.authenticateResourceClient
   go_leaf
 
 /-- hypothesis of the `_partial` theorem for finding F-C05g: every client registered for the client_credentials grant authenticates
@@ -1236,7 +1237,7 @@ def Verified (x : EPProvider) (now : Int) (k : Creds) (g : String) (c : OPClient
 theorem verifyRequestClient_ok {x : EPProvider} {now : Int} {o : EPOracles} {r : EPRequest} {c : OPClient}
     (h : GenEP.verifyRequestClient now o (EP.webServer x) r = .ok c) :
     Verified x now (credsOf o r) (grantOf r) c := by
-  unfold GenEP.verifyRequestClient at h
+  rw [SpecEP.verifyRequestClient_eq] at h; unfold SpecEP.verifyRequestClient at h
   split at h; · simp at h
   rename_i cc hparse
   obtain ⟨hprim, hass⟩ := parseClientCredentials_ok hparse
@@ -1248,7 +1249,7 @@ theorem verifyRequestClient_ok {x : EPProvider} {now : Int} {o : EPOracles} {r :
     by_cases hgcc : grantOf r = Const.GrantTypeClientCredentials
     · -- grant_type=client_credentials: VerifyClient is the storage's ClientCredentials
       have hv' := hv
-      unfold LegacyVerifyClient at hv'
+      rw [SpecTok.LegacyVerifyClient_eq] at hv'; unfold SpecTok.LegacyVerifyClient at hv'
       simp only [hform, hgcc, beq_self_eq_true, if_true] at hv'
       simp only [Provider.Storage] at hv'
       have hcap : x.storage.is_ClientCredentialsStorage = true := by
@@ -1281,7 +1282,7 @@ theorem withClient_cases {x : EPProvider} {now : Int} {o : EPOracles} {r : EPReq
     (P : EPResp → Prop) (herr : ∀ err, P (GenEP.WriteError now r err))
     (hok : ∀ client, Verified x now (credsOf o r) (grantOf r) client → (grantOf r ≠ "" → grantOf r ∈ client.grants) → P (handler r client)) :
     P (GenEP.withClient now o (EP.webServer x) handler r) := by
-  unfold GenEP.withClient
+  rw [SpecEP.withClient_eq]; unfold SpecEP.withClient
   split; · exact herr _
   rename_i client hv
   have hver := verifyRequestClient_ok hv
@@ -1317,7 +1318,7 @@ theorem tokensOK_of_verified {x : EPProvider} {now : Int} {k : Creds} {g : Strin
 theorem codeExchangeHandler_shape {x : EPProvider} {now : Int} {o : EPOracles} {r : EPRequest} {c : OPClient} :
     (∃ err, GenEP.codeExchangeHandler now o (EP.webServer x) r c = GenEP.WriteError now r err) ∨
     GenEP.codeExchangeHandler now o (EP.webServer x) r c = .ok (.tokens Const.GrantTypeCode c.id) := by
-  unfold GenEP.codeExchangeHandler
+  rw [SpecEP.codeExchangeHandler_eq]; unfold SpecEP.codeExchangeHandler
   split; · exact Or.inl ⟨_, rfl⟩
   split; · exact Or.inl ⟨_, rfl⟩
   split; · exact Or.inl ⟨_, rfl⟩
@@ -1336,7 +1337,7 @@ theorem refreshTokenHandler_shape {x : EPProvider} {now : Int} {o : EPOracles} {
     (∃ err, GenEP.refreshTokenHandler now o (EP.webServer x) r c = GenEP.WriteError now r err) ∨
     (GenEP.refreshTokenHandler now o (EP.webServer x) r c = .ok (.tokens Const.GrantTypeRefreshToken c.id) ∧
       x.config.GrantTypeRefreshToken = true) := by
-  unfold GenEP.refreshTokenHandler
+  rw [SpecEP.refreshTokenHandler_eq]; unfold SpecEP.refreshTokenHandler
   split; · exact Or.inl ⟨_, rfl⟩
   split; · exact Or.inl ⟨_, rfl⟩
   split
@@ -1347,11 +1348,11 @@ theorem refreshTokenHandler_shape {x : EPProvider} {now : Int} {o : EPOracles} {
     split at hresp
     · rename_i i hi
       have hsup : x.config.GrantTypeRefreshToken = true := by
-        unfold LegacyRefreshToken at hi
+        rw [SpecTok.LegacyRefreshToken_eq] at hi; unfold SpecTok.LegacyRefreshToken at hi
         simp only [Provider.GrantTypeRefreshTokenSupported] at hi
         cases hc : x.config.GrantTypeRefreshToken with
         | true => rfl
-        | false => simp [EP.webServer, EPProvider.asProvider, GenEP.GrantTypeRefreshTokenSupported, hc] at hi
+        | false => simp [EP.webServer, EPProvider.asProvider, SpecEP.GrantTypeRefreshTokenSupported_eq, SpecEP.GrantTypeRefreshTokenSupported, hc] at hi
       split at hresp
       · simp [Hand.epNewClientRequest] at hresp; subst hresp; exact ⟨rfl, hsup⟩
       · simp at hresp
@@ -1361,7 +1362,7 @@ theorem tokenExchangeHandler_shape {x : EPProvider} {now : Int} {o : EPOracles} 
     (∃ err, GenEP.tokenExchangeHandler now o (EP.webServer x) r c = GenEP.WriteError now r err) ∨
     (GenEP.tokenExchangeHandler now o (EP.webServer x) r c = .ok (.tokens Const.GrantTypeTokenExchange c.id) ∧
       x.storage.is_TokenExchangeStorage = true) := by
-  unfold GenEP.tokenExchangeHandler
+  rw [SpecEP.tokenExchangeHandler_eq]; unfold SpecEP.tokenExchangeHandler
   split; · exact Or.inl ⟨_, rfl⟩
   split; · exact Or.inl ⟨_, rfl⟩
   split; · exact Or.inl ⟨_, rfl⟩
@@ -1372,12 +1373,12 @@ theorem tokenExchangeHandler_shape {x : EPProvider} {now : Int} {o : EPOracles} 
   · exact Or.inl ⟨_, rfl⟩
   · rename_i resp hresp
     right
-    unfold GenEP.LegacyTokenExchange at hresp
+    rw [SpecEP.LegacyTokenExchange_eq] at hresp; unfold SpecEP.LegacyTokenExchange at hresp
     have hcap : x.storage.is_TokenExchangeStorage = true := by
       cases hc : x.storage.is_TokenExchangeStorage with
       | true => rfl
-      | false => simp [EP.webServer, GenEP.GrantTypeTokenExchangeSupported, hc] at hresp
-    simp [EP.webServer, GenEP.GrantTypeTokenExchangeSupported, hcap] at hresp
+      | false => simp [EP.webServer, SpecEP.GrantTypeTokenExchangeSupported_eq, SpecEP.GrantTypeTokenExchangeSupported, hc] at hresp
+    simp [EP.webServer, SpecEP.GrantTypeTokenExchangeSupported_eq, SpecEP.GrantTypeTokenExchangeSupported, hcap] at hresp
     split at hresp; · simp at hresp
     unfold Hand.epCreateTokenExchangeResponse Hand.epIssue at hresp
     split at hresp; · simp at hresp
@@ -1390,19 +1391,19 @@ theorem deviceTokenHandler_shape {x : EPProvider} {now : Int} {o : EPOracles} {r
     (∃ err, GenEP.deviceTokenHandler now o (EP.webServer x) r c = GenEP.WriteError now r err) ∨
     (GenEP.deviceTokenHandler now o (EP.webServer x) r c = .ok (.tokens Const.GrantTypeDeviceCode c.id) ∧
       x.storage.is_DeviceAuthorizationStorage = true) := by
-  unfold GenEP.deviceTokenHandler
+  rw [SpecEP.deviceTokenHandler_eq]; unfold SpecEP.deviceTokenHandler
   split; · exact Or.inl ⟨_, rfl⟩
   split; · exact Or.inl ⟨_, rfl⟩
   split
   · exact Or.inl ⟨_, rfl⟩
   · rename_i resp hresp
     right
-    unfold GenEP.LegacyDeviceToken at hresp
+    rw [SpecEP.LegacyDeviceToken_eq] at hresp; unfold SpecEP.LegacyDeviceToken at hresp
     have hcap : x.storage.is_DeviceAuthorizationStorage = true := by
       cases hc : x.storage.is_DeviceAuthorizationStorage with
       | true => rfl
-      | false => simp [EP.webServer, GenEP.GrantTypeDeviceCodeSupported, hc] at hresp
-    simp [EP.webServer, GenEP.GrantTypeDeviceCodeSupported, hcap] at hresp
+      | false => simp [EP.webServer, SpecEP.GrantTypeDeviceCodeSupported_eq, SpecEP.GrantTypeDeviceCodeSupported, hc] at hresp
+    simp [EP.webServer, SpecEP.GrantTypeDeviceCodeSupported_eq, SpecEP.GrantTypeDeviceCodeSupported, hcap] at hresp
     split at hresp; · simp at hresp
     unfold Hand.epCreateDeviceTokenResponse Hand.epIssue at hresp
     split at hresp; · simp at hresp
@@ -1414,14 +1415,14 @@ theorem deviceTokenHandler_shape {x : EPProvider} {now : Int} {o : EPOracles} {r
 theorem clientCredentialsHandler_shape {x : EPProvider} {now : Int} {o : EPOracles} {r : EPRequest} {c : OPClient} :
     (∃ err, GenEP.clientCredentialsHandler now o (EP.webServer x) r c = GenEP.WriteError now r err) ∨
     GenEP.clientCredentialsHandler now o (EP.webServer x) r c = .ok (.tokens Const.GrantTypeClientCredentials c.id) := by
-  unfold GenEP.clientCredentialsHandler
+  rw [SpecEP.clientCredentialsHandler_eq]; unfold SpecEP.clientCredentialsHandler
   split; · exact Or.inl ⟨_, rfl⟩
   split; · exact Or.inl ⟨_, rfl⟩
   split
   · exact Or.inl ⟨_, rfl⟩
   · rename_i resp hresp
     right
-    unfold GenEP.LegacyClientCredentialsExchange at hresp
+    rw [SpecEP.LegacyClientCredentialsExchange_eq] at hresp; unfold SpecEP.LegacyClientCredentialsExchange at hresp
     simp only [] at hresp
     split at hresp; · simp at hresp
     split at hresp; · simp at hresp
@@ -1434,13 +1435,13 @@ theorem clientCredentialsHandler_shape {x : EPProvider} {now : Int} {o : EPOracl
 
 theorem goodToken_jwtProfileHandler {x : EPProvider} {now : Int} {o : EPOracles} {r : EPRequest} :
     GoodToken (cfgOf x) now (credsOf o r) Const.GrantTypeBearer (GenEP.jwtProfileHandler now o (EP.webServer x) r) := by
-  unfold GenEP.jwtProfileHandler
+  rw [SpecEP.jwtProfileHandler_eq]; unfold SpecEP.jwtProfileHandler
   split; · exact goodToken_writeError ..
   rename_i f hdec
   split; · exact goodToken_writeError ..
   split; · exact goodToken_writeError ..
   rename_i resp hresp
-  unfold GenEP.LegacyJWTProfile at hresp
+  rw [SpecEP.LegacyJWTProfile_eq] at hresp; unfold SpecEP.LegacyJWTProfile at hresp
   simp only [] at hresp
   split at hresp; · simp at hresp
   split at hresp; · simp at hresp
@@ -1452,7 +1453,7 @@ theorem goodToken_jwtProfileHandler {x : EPProvider} {now : Int} {o : EPOracles}
   rename_i d hd
   split at hd
   · simp [Hand.NewResponse] at hd hresp; subst hd; subst hresp
-    unfold GenEP.decodeRequest at hdec
+    rw [SpecEP.decodeRequest_eq] at hdec; unfold SpecEP.decodeRequest at hdec
     split at hdec; · simp at hdec
     simp only [Bool.false_eq_true, if_false] at hdec
     split at hdec; · simp at hdec
@@ -1473,7 +1474,7 @@ theorem goodToken_jwtProfileHandler {x : EPProvider} {now : Int} {o : EPOracles}
 /-- the grant switch of the Server router -/
 theorem goodToken_tokensHandler {x : EPProvider} {now : Int} {o : EPOracles} {r : EPRequest} :
     GoodToken (cfgOf x) now (credsOf o r) (grantOf r) (GenEP.tokensHandler now o (EP.webServer x) r) := by
-  unfold GenEP.tokensHandler
+  rw [SpecEP.tokensHandler_eq]; unfold SpecEP.tokensHandler
   split; · exact goodToken_writeError ..
   simp only []
   split
@@ -1552,7 +1553,7 @@ def introspectionHandlerSpec (now : Int) (o : EPOracles) (s : EPWebServer) (r : 
 
 theorem introspectionHandler_eq (now : Int) (o : EPOracles) (s : EPWebServer) (r : EPRequest) :
     GenEP.introspectionHandler now o s r = introspectionHandlerSpec now o s r := by
-  unfold GenEP.introspectionHandler introspectionHandlerSpec
+  rw [SpecEP.introspectionHandler_eq]; unfold SpecEP.introspectionHandler; unfold introspectionHandlerSpec
   go_leaf
 
 theorem goodIntrospect_introspectionHandler {x : EPProvider} {now : Int} {o : EPOracles} {r : EPRequest}
@@ -1570,7 +1571,7 @@ theorem goodIntrospect_introspectionHandler {x : EPProvider} {now : Int} {o : EP
   split; · exact goodIntrospect_writeError ..
   split; · exact goodIntrospect_writeError ..
   rename_i resp hresp
-  unfold GenEP.LegacyIntrospect at hresp
+  rw [SpecEP.LegacyIntrospect_eq] at hresp; unfold SpecEP.LegacyIntrospect at hresp
   split at hresp; · simp at hresp
   rename_i clientID hauth
   simp only [Hand.epNewRequest] at hauth
@@ -1612,13 +1613,13 @@ theorem goodRevoke_revocationHandler {x : EPProvider} {now : Int} {o : EPOracles
       obtain ⟨hnpk, hpost⟩ := hcc hg c (List.mem_of_find?_eq_some hv.1) hgr
       exact fits_of_presented hp hid.symm hsec hnpk hpost
     · exact hfit
-  unfold GenEP.revocationHandler
+  rw [SpecEP.revocationHandler_eq]; unfold SpecEP.revocationHandler
   split; · exact goodRevoke_writeError ..
   split; · exact goodRevoke_writeError ..
   split; · exact goodRevoke_writeError ..
   rename_i resp hresp
   have : resp = .revoked c.id := by
-    unfold GenEP.LegacyRevocation at hresp
+    rw [SpecEP.LegacyRevocation_eq] at hresp; unfold SpecEP.LegacyRevocation at hresp
     simp only [] at hresp
     repeat' (split at hresp)
     all_goals first
@@ -1630,11 +1631,11 @@ theorem goodRevoke_revocationHandler {x : EPProvider} {now : Int} {o : EPOracles
 theorem goodDevice_deviceAuthorizationHandler_legacy {x : EPProvider} {now : Int} {o : EPOracles} {r : EPRequest} {c : OPClient}
     {k : Creds} {g : String} (hv : Verified x now k g c) :
     GoodDevice (cfgOf x) (GenEP.deviceAuthorizationHandler now o (EP.webServer x) r c) := by
-  unfold GenEP.deviceAuthorizationHandler
+  rw [SpecEP.deviceAuthorizationHandler_eq]; unfold SpecEP.deviceAuthorizationHandler
   split; · exact goodDevice_writeError ..
   split; · exact goodDevice_writeError ..
   rename_i resp hresp
-  unfold GenEP.LegacyDeviceAuthorization at hresp
+  rw [SpecEP.LegacyDeviceAuthorization_eq] at hresp; unfold SpecEP.LegacyDeviceAuthorization at hresp
   split at hresp; · simp at hresp
   rename_i hgrant
   split at hresp; · simp at hresp
@@ -1656,13 +1657,13 @@ theorem goodDevice_deviceAuthorizationHandler_legacy {x : EPProvider} {now : Int
 
 theorem decision_provider_token (now : Int) (x : EPProvider) (o : EPOracles) (r : EPRequest) :
     EP.endpointDecision now .provider x o .token r = GenEP.Exchange now o r.parsed x := by
-  simp [EP.endpointDecision, EP.routes, EP.routeKey, GenEP.providerRoutes, EP.handlerOf, GenEP.tokenHandler]
+  simp [EP.endpointDecision, EP.routes, EP.routeKey, GenEP.providerRoutes, EP.handlerOf, SpecEP.tokenHandler_eq, SpecEP.tokenHandler]
 theorem decision_provider_introspect (now : Int) (x : EPProvider) (o : EPOracles) (r : EPRequest) :
     EP.endpointDecision now .provider x o .introspect r = GenEP.Introspect now o r x := by
-  simp [EP.endpointDecision, EP.routes, EP.routeKey, GenEP.providerRoutes, EP.handlerOf, GenEP.providerIntrospectionHandler]
+  simp [EP.endpointDecision, EP.routes, EP.routeKey, GenEP.providerRoutes, EP.handlerOf, SpecEP.providerIntrospectionHandler_eq, SpecEP.providerIntrospectionHandler]
 theorem decision_provider_revoke (now : Int) (x : EPProvider) (o : EPOracles) (r : EPRequest) :
     EP.endpointDecision now .provider x o .revoke r = GenEP.Revoke now o r x := by
-  simp [EP.endpointDecision, EP.routes, EP.routeKey, GenEP.providerRoutes, EP.handlerOf, GenEP.providerRevocationHandler]
+  simp [EP.endpointDecision, EP.routes, EP.routeKey, GenEP.providerRoutes, EP.handlerOf, SpecEP.providerRevocationHandler_eq, SpecEP.providerRevocationHandler]
 theorem decision_provider_device (now : Int) (x : EPProvider) (o : EPOracles) (r : EPRequest) :
     EP.endpointDecision now .provider x o .deviceAuthorization r = GenEP.DeviceAuthorizationHandler now o x r := by
   simp [EP.endpointDecision, EP.routes, EP.routeKey, GenEP.providerRoutes, EP.handlerOf]
@@ -1766,35 +1767,35 @@ theorem tokShape_ok_issue {x : EPProvider} {g c : String} {d : EPDone} (h : Hand
   rw [epIssue_ok h]; trivial
 
 theorem tokShape_codeExchange (now : Int) (o : EPOracles) (r : EPRequest) (x : EPProvider) : TokShape (GenEP.CodeExchange now o r x) := by
-  unfold GenEP.CodeExchange
+  rw [SpecEP.CodeExchange_eq]; unfold SpecEP.CodeExchange
   repeat' split
   all_goals first
     | exact tokShape_requestError ..
     | (rename_i h; exact tokShape_ok_issue h)
 
 theorem tokShape_refreshTokenExchange (now : Int) (o : EPOracles) (r : EPRequest) (x : EPProvider) : TokShape (GenEP.RefreshTokenExchange now o r x) := by
-  unfold GenEP.RefreshTokenExchange
+  rw [SpecEP.RefreshTokenExchange_eq]; unfold SpecEP.RefreshTokenExchange
   repeat' split
   all_goals first
     | exact tokShape_requestError ..
     | (rename_i h; exact tokShape_ok_issue h)
 
 theorem tokShape_clientCredentialsExchange (now : Int) (o : EPOracles) (r : EPRequest) (x : EPProvider) : TokShape (GenEP.ClientCredentialsExchange now o r x) := by
-  unfold GenEP.ClientCredentialsExchange
+  rw [SpecEP.ClientCredentialsExchange_eq]; unfold SpecEP.ClientCredentialsExchange
   repeat' split
   all_goals first
     | exact tokShape_requestError ..
     | (rename_i h; exact tokShape_ok_issue h)
 
 theorem tokShape_tokenExchange (now : Int) (o : EPOracles) (r : EPRequest) (x : EPProvider) : TokShape (GenEP.TokenExchange now o r x) := by
-  unfold GenEP.TokenExchange
+  rw [SpecEP.TokenExchange_eq]; unfold SpecEP.TokenExchange
   repeat' split
   all_goals first
     | exact tokShape_requestError ..
     | (rename_i h; exact tokShape_ok_issue h)
 
 theorem tokShape_jwtProfile (now : Int) (o : EPOracles) (r : EPRequest) (x : EPProvider) : TokShape (GenEP.JWTProfile now o r x) := by
-  unfold GenEP.JWTProfile
+  rw [SpecEP.JWTProfile_eq]; unfold SpecEP.JWTProfile
   split; · exact tokShape_requestError ..
   split; · exact tokShape_requestError ..
   split; · exact tokShape_requestError ..
@@ -1803,18 +1804,18 @@ theorem tokShape_jwtProfile (now : Int) (o : EPOracles) (r : EPRequest) (x : EPP
   rename_i h; exact tokShape_ok_issue h
 
 theorem tokShape_deviceAccessToken (now : Int) (o : EPOracles) (r : EPRequest) (x : EPProvider) : TokShape (GenEP.DeviceAccessToken now o r x) := by
-  unfold GenEP.DeviceAccessToken
+  rw [SpecEP.DeviceAccessToken_eq]; unfold SpecEP.DeviceAccessToken
   split
   · exact tokShape_requestError ..
   · rename_i d hd
-    unfold GenEP.deviceAccessToken at hd
+    rw [SpecEP.deviceAccessToken_eq] at hd; unfold SpecEP.deviceAccessToken at hd
     repeat' (split at hd)
     all_goals first
       | (simp at hd; done)
       | (rename_i h; simp at hd; subst hd; exact tokShape_ok_issue h)
 
 theorem tokShape_exchange (now : Int) (o : EPOracles) (r : EPRequest) (x : EPProvider) : TokShape (GenEP.Exchange now o r x) := by
-  unfold GenEP.Exchange
+  rw [SpecEP.Exchange_eq]; unfold SpecEP.Exchange
   simp only []
   repeat' split
   all_goals first
@@ -1828,7 +1829,7 @@ theorem tokShape_exchange (now : Int) (o : EPOracles) (r : EPRequest) (x : EPPro
 
 theorem tokShape_withClient {now : Int} {o : EPOracles} {s : EPWebServer} {r : EPRequest} {handler : EPRequest → OPClient → EPResp}
     (hh : ∀ c, TokShape (handler r c)) : TokShape (GenEP.withClient now o s handler r) := by
-  unfold GenEP.withClient
+  rw [SpecEP.withClient_eq]; unfold SpecEP.withClient
   split; · exact tokShape_writeError ..
   simp only []
   split
@@ -1845,7 +1846,7 @@ theorem tokShape_of_shape {now : Int} {r : EPRequest} {resp : EPResp} {g c : Str
 
 theorem tokShape_tokensHandler (now : Int) (o : EPOracles) (x : EPProvider) (r : EPRequest) :
     TokShape (GenEP.tokensHandler now o (EP.webServer x) r) := by
-  unfold GenEP.tokensHandler
+  rw [SpecEP.tokensHandler_eq]; unfold SpecEP.tokensHandler
   split; · exact tokShape_writeError ..
   simp only []
   repeat' split
